@@ -6,7 +6,7 @@ cd "$(dirname "$0")/.."
 P=${1:-4}
 S=/var/tmp/vt/final; rm -rf $S; mkdir -p $S
 for d in seeded/*/; do
-  n=$(basename $d)
+  n=$(basename $d); [ -f $d/meta.json ] || continue
   /venv/bin/python -c "import json,sys;sys.exit(0 if json.load(open('$d/meta.json')).get('obsolete') else 1)" && continue
   mkdir -p $S/$n; cp $d/patch.diff $d/demo.py $d/meta.json $S/$n/
   extra=$(/venv/bin/python -c "import json;m=json.load(open('$d/meta.json'));print(' '.join(c for c in m.get('checks',[])[1:]))")
